@@ -5,6 +5,8 @@
 )]
 
 pub mod perf_and_test_utils;
+#[cfg(qwt_verif)]
+pub mod verif;
 pub mod qvector;
 use std::marker::PhantomData;
 
